@@ -6,12 +6,18 @@ payload
   mode   : 'names'   -> module names compile_cython_module derives for the forms (nothing is compiled)
            'probe'   -> import module payload['modname'] from MODDIR, nothing else (oracle calibration)
            'request' -> compile.compile_vform(form) and assemble with the result
+           'coldrace' -> payload: nproc, rounds, forms (one per process), depth, base.  nproc forked workers
+                        are released together by a barrier, `rounds` times, each time against a cache directory
+                        that does not exist yet (depth = how many of its trailing path components are missing);
+                        every worker calls compile.compile_cython_module(src).  Only the build itself
+                        (_compile_cython_module_nocache: Cython + gcc, irrelevant for directory set-up) is
+                        replaced by a stub that publishes a one-line Python module atomically.
   form   : 0 | 1
   kill   : stage or null  -- SIGKILL the whole process group when about to execute that stage
   ctl    : directory or null -- the harness steps this process from stage to stage (see Control)
 
 Stages are the program counters of coq/C20/Model.v:
-  'import' | 'mkdtemp' | [role, phase] | 'replace' | 'cleanup' | 'reimport'
+  'mkdir' | 'import' | 'mkdtemp' | [role, phase] | 'replace' | 'cleanup' | 'reimport'
   role in pyx,c,o,so; phase 0 = about to start the stage; phase 1..4 = the output file holds
   (nothing | its head | half | all but the last byte).  A phase >= 1 is realised by letting the real
   stage finish, truncating its output to that size class, and stopping (kill) or pausing there; on
@@ -213,6 +219,14 @@ def install(ctrl):
         return real_mkdtemp(*a, **kw)
     tempfile.mkdtemp = mkdtemp
 
+    real_makedirs = os.makedirs
+
+    def makedirs(name, *a, **kw):
+        if str(name) == C.MODDIR:
+            ctrl.at('mkdir')
+        return real_makedirs(name, *a, **kw)
+    os.makedirs = makedirs
+
     real_rmtree = shutil.rmtree
 
     def rmtree(path, *a, **kw):
@@ -233,6 +247,69 @@ def make_form(vform, k):
     return vf
 
 
+def coldrace(payload):
+    import multiprocessing as mp
+    import pyiga.compile as pc
+    nproc, rounds, forms, depth, base = (payload[k] for k in ('nproc', 'rounds', 'forms', 'depth', 'base'))
+
+    def worker(rank, barrier, queue):
+        def stub_nocache(src, modname, verbose=False):
+            fd, tmp = tempfile.mkstemp(dir=pc.MODDIR, suffix='.tmp')
+            with os.fdopen(fd, 'w') as f:
+                f.write('SRC = %r\n' % src)
+            os.replace(tmp, os.path.join(pc.MODDIR, modname + '.py'))
+            importlib.invalidate_caches()
+            return importlib.import_module(modname)
+        pc._compile_cython_module_nocache = stub_nocache
+        failures = []
+        for r in range(rounds):
+            root = os.path.join(base, 'r%d' % r)
+            pc.MODDIR = os.path.join(root, 'pyiga', 'modules')
+            src = '# round %d form %d\n' % (r, forms[rank])
+            try:
+                barrier.wait(timeout=300)
+            except Exception:
+                failures.append([rank, r, 'barrier broken'])
+                break
+            try:
+                mod = pc.compile_cython_module(src)
+                if mod.SRC != src:
+                    failures.append([rank, r, 'wrong module returned'])
+            except BaseException as e:  # noqa
+                failures.append([rank, r, '%s: %s' % (type(e).__name__, str(e)[:160])])
+            finally:
+                if pc.MODDIR in sys.path:
+                    sys.path.remove(pc.MODDIR)
+        queue.put(failures)
+
+    # the part of the path that exists before the race: all but the last `depth` components
+    for r in range(rounds):
+        parts = [os.path.join(base, 'r%d' % r), 'pyiga', 'modules']
+        keep = len(parts) - depth
+        if keep > 0:
+            os.makedirs(os.path.join(*parts[:keep]), exist_ok=True)
+    ctx = mp.get_context('fork')
+    barrier = ctx.Barrier(nproc)
+    queue = ctx.Queue()
+    procs = [ctx.Process(target=worker, args=(k, barrier, queue)) for k in range(nproc)]
+    for p in procs:
+        p.start()
+    failures = []
+    got = 0
+    try:
+        for _ in procs:
+            failures += queue.get(timeout=900)
+            got += 1
+    except Exception:
+        pass
+    for p in procs:
+        p.join(timeout=30)
+        if p.is_alive():
+            p.kill()
+    died = [k for k, p in enumerate(procs) if p.exitcode not in (0, None)]
+    print(json.dumps({'failures': failures[:50], 'nfail': len(failures), 'reports': got, 'died': died}))
+
+
 def main():
     payload = json.load(sys.stdin)
     import pyiga
@@ -246,6 +323,9 @@ def main():
             src = compile.generate(make_form(vform, k))
             names.append('mod' + hashlib.shake_128(src.encode()).hexdigest(8))
         print(json.dumps({'names': names, 'moddir': compile.MODDIR}))
+        return
+    if mode == 'coldrace':
+        coldrace(payload)
         return
     if mode == 'probe':
         sys.path.append(compile.MODDIR)
